@@ -297,7 +297,10 @@ func buildLayout(sc *Scn, runDirPrefix string) intoto.Layout {
 		good := lib.NewCA("verif-root", nil, lib.CertOpts{})
 		l.RootCas = map[string]intoto.Key{good.Key.KeyID: good.Key}
 	}
-	last := sc.Steps[len(sc.Steps)-1].Name
+	last := ""
+	if len(sc.Steps) > 0 {
+		last = sc.Steps[len(sc.Steps)-1].Name
+	}
 	for _, in := range sc.Insps {
 		var x intoto.Inspection
 		x.Type = "inspection"
@@ -333,6 +336,14 @@ func buildLayout(sc *Scn, runDirPrefix string) intoto.Layout {
 			}
 			x.ExpectedMaterials = [][]string{mm, {"DISALLOW", pre + "stamp.txt"}, {"ALLOW", "*"}}
 			x.ExpectedProducts = [][]string{mm, {"DISALLOW", pre + "stamp.txt"}, {"ALLOW", "*"}}
+		}
+		if sc.Defect == "match-materials-then-products-of-one-step" {
+			mm := []string{"MATCH", "README", "WITH", "MATERIALS", "FROM", last}
+			if runDirPrefix != "" {
+				mm = []string{"MATCH", "README", "IN", runDirPrefix, "WITH", "MATERIALS", "FROM", last}
+			}
+			x.ExpectedMaterials = [][]string{mm, m, {"ALLOW", pre + "*.link"}, {"ALLOW", pre + "*.tmp"}, {"DISALLOW", "*"}}
+			x.ExpectedProducts = [][]string{mm, m, {"ALLOW", pre + "*.link"}, {"ALLOW", pre + "*.tmp"}, {"DISALLOW", "*"}}
 		}
 		if sc.Defect == "require-on-empty-queue" {
 			x.ExpectedMaterials = [][]string{m, {"ALLOW", "*"}, {"REQUIRE", pre + "README"}}
@@ -693,11 +704,12 @@ var defects = map[string][]string{
 		"permissive-sub-beside-link-disagree", "permissive-sub-beside-link-agree", "permissive-twin-sublayouts-disagree", "permissive-twin-sublayouts-agree",
 		"threshold1-disagree-large-link", "permissive-threshold1-foreign-signature-entry-0", "permissive-threshold1-foreign-signature-entry-1",
 		"permissive-three-links-one-disagrees-0", "permissive-three-links-one-disagrees-1", "permissive-three-links-one-disagrees-2"},
-	"c06": {"sub-expired", "sub-undated", "sub-rfc3339-offset", "none", "expired-long", "expired-2s", "future-1h", "garbage", "empty", "rfc3339-offset", "date-only", "year-9999", "fraction", "lowercase"},
+	"c06": {"empty-layout-expired", "empty-layout-undated", "empty-layout-in-date", "future-trailing-newline", "future-leading-space", "future-wrapped-unicode-space",
+		"sub-expired", "sub-undated", "sub-rfc3339-offset", "none", "expired-long", "expired-2s", "future-1h", "garbage", "empty", "rfc3339-offset", "date-only", "year-9999", "fraction", "lowercase"},
 	"c08": {"sub-insp-killed-by-signal", "sub-same-step-name-upper-link-missing", "sub-same-step-name-both-present", "sub-wide-9", "sub-defective-beside-good-link-large", "sub-insp-named-like-first-step", "sub-insp-named-like-last-step", "sub-defective-beside-good-link", "sub-ok", "sub-ok", "sub-badsig", "sub-expired", "sub-missing-link", "sub-rule-violation", "sub-unauthorised", "sub-nested", "sub-nested-defect", "sub-summary-mismatch", "sub-summary-mismatch-other-algorithm"},
 	"c10": {"history-same-params", "history-diff-params", "history-no-params", "history-mixed", "mixed-cert-key", "mixed-cert-key", "mixed-cert-key-unsorted", "summary-byproducts", "direct-unclean",
 		"history-empty-command-argument", "history-dir-relative-inspection-fails-midway", "mixed-cert-key-dir", "history-layout-keys-share-short-id", "history-four-links-two-groups", "history-dir-inspection-relative-command", "history-caller-intermediates-spare-capacity", "mixed-cert-key-other-step-constraint-mismatch", "history-two-sublayouts-same-functionary", "history-multi-alg", "history-multi-alg-mismatch", "history-whitespace-rule", "history-param-value-has-marker", "mixed-cert-key-marker-constraint", "history-threshold-zero"},
-	"c09": {"require-on-empty-queue", "insp-killed-by-signal", "socket-file-added", "unclean-disallow-pattern-product-added", "star-class-pattern-product-added", "dangling-symlink-added", "step-rule-fails-no-inspection-may-run", "symlinked-dir-before-tampered-product", "symlinked-dir-untouched", "product-crlf-rewritten", "product-crlf-rewritten-normalised", "large-product-tampered-tail", "large-product-untouched", "product-added-ignorable-name-0", "product-added-ignorable-name-1", "product-added-ignorable-name-2", "product-added-ignorable-name-3",
+	"c09": {"match-materials-then-products-of-one-step", "require-on-empty-queue", "insp-killed-by-signal", "socket-file-added", "unclean-disallow-pattern-product-added", "star-class-pattern-product-added", "dangling-symlink-added", "step-rule-fails-no-inspection-may-run", "symlinked-dir-before-tampered-product", "symlinked-dir-untouched", "product-crlf-rewritten", "product-crlf-rewritten-normalised", "large-product-tampered-tail", "large-product-untouched", "product-added-ignorable-name-0", "product-added-ignorable-name-1", "product-added-ignorable-name-2", "product-added-ignorable-name-3",
 		"product-added-ignorable-name-4", "product-added-ignorable-name-5", "product-added-ignorable-name-6", "product-added-ignorable-name-7",
 		"product-added-ignorable-name-8", "product-added-ignorable-name-9", "product-added-ignorable-name-10", "case-variant-rule-earlier", "product-modified-backslash-decoy", "sha512-chain-product-modified", "escaped-pattern-product-modified", "escaped-pattern-none", "insp-rewrite-same-mtime", "product-all-removed", "require-after-consume", "none", "insp-fail", "insp-fail-255", "insp-missing", "insp-empty", "product-modified", "product-added", "product-removed",
 		"insp-touch-allowed", "insp-touch-disallowed", "three-inspections", "second-fails"},
@@ -968,6 +980,23 @@ func genScenario(r *lib.Rng, focus string, idx int) *Scn {
 		case "lowercase":
 			sc.Expires = strings.ToLower(now.Add(48 * time.Hour).Format(f))
 			sc.Expect = "reject"
+		case "future-trailing-newline", "future-leading-space", "future-wrapped-unicode-space":
+			// a date in the future wrapped in white space is not a timestamp of the schema
+			t := now.Add(48 * time.Hour).Format(f)
+			sc.Expires = map[string]string{"future-trailing-newline": t + "\n", "future-leading-space": " " + t,
+				"future-wrapped-unicode-space": "\t" + t + "\u00a0\u2028"}[d]
+			sc.Expect = "reject"
+		case "empty-layout-expired", "empty-layout-undated", "empty-layout-in-date":
+			// a layout with nothing in it - no steps, no inspections - is still a layout with an expiry
+			sc.Steps, sc.Insps, sc.ExpectLog, sc.Params = nil, nil, nil, nil
+			switch d {
+			case "empty-layout-expired":
+				sc.Expires = now.Add(-90 * time.Minute).Format(f)
+				sc.Expect = "reject"
+			case "empty-layout-undated":
+				sc.Expires = ""
+				sc.Expect = "reject"
+			}
 		case "sub-expired", "sub-undated", "sub-rfc3339-offset":
 			// the root layout is in date; the layout an authorised functionary hands in as evidence for a step is not
 			i := r.Intn(len(sc.Steps))
@@ -985,7 +1014,7 @@ func genScenario(r *lib.Rng, focus string, idx int) *Scn {
 			sc.Expect = "reject"
 			sc.ForbidLog = []string{"subinsp"}
 		}
-		if len(sc.Insps) == 0 {
+		if len(sc.Insps) == 0 && !strings.HasPrefix(d, "empty-layout-") {
 			sc.Insps = []InspSpec{{Name: "insp0", Kind: "log"}}
 			sc.ExpectLog = []string{"insp0"}
 		}
@@ -1325,6 +1354,10 @@ func genScenario(r *lib.Rng, focus string, idx int) *Scn {
 			if d == "symlinked-dir-before-tampered-product" {
 				sc.Expect = "reject"
 			}
+		case "match-materials-then-products-of-one-step":
+			// the inspection first MATCHes one file WITH MATERIALS FROM the last step and then everything WITH PRODUCTS FROM
+			// the same step: each rule compares with the artifacts it names
+			sc.Insps = []InspSpec{{Name: "insp0", Kind: "log"}}
 		case "require-on-empty-queue":
 			// REQUIRE looks at the queue: after ALLOW * consumed everything the queue is EMPTY and the required file is
 			// not in it - the rule fails (it is not skipped because nothing is left to match)
@@ -1605,6 +1638,10 @@ func materialise(sc *Scn, root string, r *lib.Rng) *world {
 	}
 	curAlg, curNorm = "sha256", false
 	sc.ExpectSummary = wrapperTag(w.layoutMeta) + lib.ShowLinkCore(intoto.Link{Name: "summary-name", Materials: w.expMat, Products: w.expProd})
+	if len(sc.Steps) == 0 {
+		// a layout without steps has no endpoints: the summary is the empty link (C05_summary_spec)
+		sc.ExpectSummary = wrapperTag(w.layoutMeta) + lib.ShowLinkCore(intoto.Link{})
+	}
 	for p, c := range final {
 		fp := filepath.Join(w.prodDir, p)
 		os.MkdirAll(filepath.Dir(fp), 0o755)
